@@ -180,7 +180,7 @@ def run(pid, tier):
         thorough = tier == "thorough"
         vlib.harness_build(BIN)
         # ---- Leg M: design-level model over the same effect operators ----
-        depth = 4 if thorough else 2
+        depth = 3 if thorough else 2
         cfg = os.path.join(os.path.dirname(SPEC_MC if os.path.isabs(SPEC_MC) else os.path.join(vlib.SPEC, SPEC_MC)), "VmStorage_MC.cfg")
         gen = cfg.replace(".cfg", "_%d.gen.cfg" % os.getpid())
         with open(gen, "w") as f:
